@@ -340,7 +340,12 @@ Proof.
              | |- Inv (snd (match ?l with [] => _ | _ :: _ => _ end)) => destruct l
              end; cbn [snd]; auto using inv_set_ctl, inv_set_nst.
     + (* ASubscribe *)
-      unfold alloc_obs. cbn [snd]. apply inv_set_ctl. apply (inv_alloc w (THandler n port (c_serial (ctls w (n_ctl (nodes w n)))))); [exact I | exact Logic.I].
+      unfold alloc_obs. cbn [snd].
+      pose proof (inv_alloc w (THandler n port (c_serial (ctls w (n_ctl (nodes w n))))) I Logic.I) as IA.
+      unfold alloc_obs in IA; cbn [snd] in IA.
+      destruct (is_sub (obs w (c_sub (ctls w (n_ctl (nodes w n)))))); cbn [snd].
+      * now apply inv_set_ctl.
+      * apply inv_close. now apply inv_set_ctl.
     + (* ASubjNew *)
       unfold alloc_subj. cbn [snd]. pose proof (inv_alloc_subj w k None I) as I2. unfold alloc_subj in I2; cbn [snd] in I2.
       destruct (n_op (nodes w n)); auto using inv_set_nst.
@@ -353,6 +358,7 @@ Proof.
   - (* Repeat *) destruct (is_sub _); exact I.
   - (* StartWith *) destruct l; destruct (is_sub _); exact I.
   - (* SubscribePipe *)
+    destruct (negb (is_sub (obs w o))); [exact I |].
     destruct p as [s | v | l | a n | | | e | v | q | c | r | h | h | k | op src others]; cbn [snd]; auto; try (inv_simple I; fail).
     + (* PFromResult *) destruct r; exact I.
     + (* PHot *)
